@@ -28,8 +28,9 @@
    (5) BYTE SEEKS (ov_raw_seek) into the link being decoded, onto a page that is
    not the link's last and carries a granule position, followed by an intact
    run: the position reported is where the first packet of that run ends, and
-   the handle is landed as after a page seek.  NOT proved: byte seeks that
-   change link or land on a last page, the continued-packet fallback, seeks that finish inside the last page (end-of-
+   the handle is landed as after a page seek - also when the byte seek leaves
+   the link being decoded or starts without decoder.  NOT proved: byte seeks
+   that land on a link's last page, the continued-packet fallback, seeks that finish inside the last page (end-of-
    stream trim): tied per run by the bit-exact oracle; half rate: Properties_C20.v.  See DESIGN.md
    section 13. *)
 From VV Require Import Blocking VFile VFile_lemmas VFileDemo Sync_lemmas Seek_lemmas.
@@ -136,6 +137,24 @@ Theorem C07_raw_seek_truthful_on_intact_run :
     fst (raw_seek s pos) = 0 /\ v_pcm s' = base_of s (v_link s) + e0 /\ Landed tail s' (v_pcm s').
 Proof. exact raw_seek_truthful. Qed.
 Print Assumptions C07_raw_seek_truthful_on_intact_run.
+
+(* the same when the byte seek leaves the link being decoded, or starts from a handle without decoder *)
+Theorem C07_raw_seek_truthful_other_link :
+  forall (tail : list page) s pos pg (r1 : list page) j e0,
+    let l := nth_link s j in
+    let pk := if pg_cont pg then tl (pg_pkts pg) else pg_pkts pg in
+    v_hs s = 0 -> OPENED <= v_rs s <= INITSET ->
+    0 <= pos <= file_end s ->
+    (v_rs s = OPENED \/ pos < li_off (cur_link s) \/ li_end (cur_link s) <= pos) ->
+    pages_from (v_pages s) pos = pg :: r1 ++ tail ->
+    find_link (v_links s) (pg_serial pg) 0 = Some j -> 0 <= j ->
+    pg_eos pg = false -> Forall (plain (pg_serial pg)) r1 ->
+    0 < li_bs0 l -> 0 < li_bs1 l -> li_bs0 l <= li_bs1 l -> li_bs0 l mod 4 = 0 -> li_bs1 l mod 4 = 0 -> 0 <= li_init l ->
+    0 <= e0 -> IntactS l true e0 false (pk ++ flat_map pg_pkts r1) -> scan_acc l 0 0 pk <> None ->
+    let s' := snd (raw_seek s pos) in
+    fst (raw_seek s pos) = 0 /\ v_link s' = j /\ v_pcm s' = base_of s j + e0 /\ Landed tail s' (v_pcm s').
+Proof. exact raw_seek_truthful_other_link. Qed.
+Print Assumptions C07_raw_seek_truthful_other_link.
 
 Theorem C07_landed_then_fetch_in_sync :
   forall (tail : list page) s1 pos, Landed tail s1 pos ->
